@@ -79,3 +79,141 @@ package keeper
 //@   ensures[C04.supply_delta] err == nil ==> sdbSupply[payload(st.state)] <= old(sdbSupply[payload(st.state)]) + (st.SenderPaidTheFee ? st.gas * bigval[st.gasPrice] : 0)
 //@   ensures[C05.core_error_no_effect] err != nil ==> (sdbNonce[payload(st.state)] == old(sdbNonce[payload(st.state)]) && sdbBal[payload(st.state)] == old(sdbBal[payload(st.state)]) && sdbSupply[payload(st.state)] == old(sdbSupply[payload(st.state)]) && sdbCodeHash[payload(st.state)] == old(sdbCodeHash[payload(st.state)]))
 //@   panics never
+
+// ---------------------------------------------------------------------------------------------
+// keeper.go — per-block transient bookkeeping (abstract view per store layer; C05, C13)
+// ---------------------------------------------------------------------------------------------
+//@ import ethtypes "github.com/ethereum/go-ethereum/core/types"
+//@ import evmvm "github.com/EscanBE/evermint/v12/x/evm/vm"
+
+//@ ghost var trCount map[int]int
+//@ ghost var trGas map[int]map[int]int
+//@ ghost var trLogs map[int]map[int]int
+//@ ghost var trReceipt map[int]map[int]bytes
+//@ ghost var trHasReceipt map[int]map[int]bool
+//@ ghost var trFlagNonce map[int]bool
+//@ ghost var trFlagPaid map[int]bool
+//@ ghost var trFlagNoBaseFee map[int]bool
+//@ axiom transient_ranges: forall l int, i int :: 0 <= trCount[l] && trCount[l] < pow2(64) && 0 <= trGas[l][i] && trGas[l][i] < pow2(64) && 0 <= trLogs[l][i] && trLogs[l][i] < pow2(64)
+
+// running sums over the first n entries
+//@ ghost func sumTo(m map[int]int, n int) int = n <= 0 ? 0 : sumTo(m, n - 1) + m[n - 1]
+
+// Store-backed accessors: trusted summaries of transient store + big-endian codec (trusted_base).
+//@ func (k Keeper) GetRawTxCountTransient(ctx sdk.Context) uint64
+//@   assumed
+//@   modifies nothing
+//@   ensures result == trCount[layer(ctx)]
+//@   panics never
+//@ func (k Keeper) IncreaseTxCountTransient(ctx sdk.Context)
+//@   assumed
+//@   modifies trCount[layer(ctx)]
+//@   ensures trCount[layer(ctx)] == (old(trCount[layer(ctx)]) + 1) % pow2(64)
+//@   panics never
+//@ func (k Keeper) GetGasUsedForTdxIndexTransient(ctx sdk.Context, txIdx uint64) uint64
+//@   assumed
+//@   modifies nothing
+//@   ensures result == trGas[layer(ctx)][txIdx]
+//@   panics never
+//@ func (k Keeper) IsSenderPaidTxFeeInAnteHandle(ctx sdk.Context) bool
+//@   assumed
+//@   modifies nothing
+//@   ensures result == trFlagPaid[layer(ctx)]
+//@   panics never
+//@ func (k Keeper) IsSenderNonceIncreasedByAnteHandle(ctx sdk.Context) bool
+//@   assumed
+//@   modifies nothing
+//@   ensures result == trFlagNonce[layer(ctx)]
+//@   panics never
+//@ func (k Keeper) IsNoBaseFeeEnabled(ctx sdk.Context) bool
+//@   assumed
+//@   modifies nothing
+//@   ensures result == trFlagNoBaseFee[layer(ctx)]
+//@   panics never
+
+//@ func (k Keeper) GetTxCountTransient(ctx sdk.Context) uint64
+//@   modifies nothing
+//@   ensures[C13.count_floor] result == max(1, trCount[layer(ctx)])
+//@   panics never
+
+//@ func (k Keeper) SetGasUsedForCurrentTxTransient(ctx sdk.Context, gas uint64)
+//@   assumed
+//@   modifies trGas[layer(ctx)]
+//@   ensures trGas[layer(ctx)] == old(trGas[layer(ctx)])[max(1, trCount[layer(ctx)]) - 1 := gas]
+//@   panics never
+//@ func (k Keeper) SetLogCountForCurrentTxTransient(ctx sdk.Context, count uint64)
+//@   assumed
+//@   modifies trLogs[layer(ctx)]
+//@   ensures trLogs[layer(ctx)] == old(trLogs[layer(ctx)])[max(1, trCount[layer(ctx)]) - 1 := count]
+//@   panics never
+//@ func (k Keeper) SetTxReceiptForCurrentTxTransient(ctx sdk.Context, receiptBz []byte)
+//@   assumed
+//@   modifies trReceipt[layer(ctx)], trHasReceipt[layer(ctx)]
+//@   ensures trReceipt[layer(ctx)] == old(trReceipt[layer(ctx)])[max(1, trCount[layer(ctx)]) - 1 := bytes(receiptBz)]
+//@   ensures trHasReceipt[layer(ctx)] == old(trHasReceipt[layer(ctx)])[max(1, trCount[layer(ctx)]) - 1 := len(receiptBz) > 0]
+//@   panics never
+
+// ---------------------------------------------------------------------------------------------
+// state_transition.go
+// ---------------------------------------------------------------------------------------------
+
+// Trusted here, decided elsewhere: construction of the StateDB (x/evm/vm, C03) and of the EVM object (NewEVM, C01/C17).
+//@ func (k *Keeper) NewEVM(ctx sdk.Context, msg core.Message, cfg *evmvm.EVMConfig, tracer corevm.EVMLogger, stateDB corevm.StateDB) *corevm.EVM
+//@   assumed
+//@   modifies nothing
+//@   ensures result != nil && fresh(result) && result.StateDB == stateDB && result.Context.BlockNumber != nil && bigval[result.Context.BlockNumber] == ctx.BlockHeight()
+//@   ensures result.Context.BaseFee == cfg.BaseFee && (result.Config.Debug ==> result.Config.Tracer != nil) && result.ChainConfig() == cfg.ChainConfig
+//@   panics never
+
+// ApplyMessageWithConfig: gas accounting of one executed message (C05) and the receipt it stores (C13).
+//@ func (k *Keeper) ApplyMessageWithConfig(ctx sdk.Context, msg core.Message, tracer corevm.EVMLogger, commit bool, cfg *evmvm.EVMConfig, txConfig evmvm.TxConfig) (res *evmtypes.MsgEthereumTxResponse, err error)
+//@   requires k != nil && cfg != nil && msg != nil && cfg.ChainConfig != nil
+//@   requires msg.GasPrice() != nil && msg.GasFeeCap() != nil && msg.GasTipCap() != nil && msg.Value() != nil
+//@   requires londonActive(cfg.ChainConfig, ctx.BlockHeight()) ==> cfg.BaseFee != nil
+//@   requires txConfig.TxType != nil ==> *txConfig.TxType <= 2
+//@   ensures[C05.gas_used_le_limit] err == nil ==> (res != nil && res.GasUsed <= msg.Gas())
+//@   ensures[C05.gas_recorded,C13.gas_recorded] err == nil ==> trGas[layer(ctx)][max(1, trCount[layer(ctx)]) - 1] == res.GasUsed
+//@   ensures[C13.cumulative_gas,C05.cumulative_gas] err == nil ==> (exists status int, bloom ethtypes.Bloom, lb ref, lo int, ll int :: bytes(res.MarshalledReceipt) == rlpReceipt(*txConfig.TxType, status, (res.GasUsed + sumTo(old(trGas[layer(ctx)]), txConfig.TxIndex)) % pow2(64), bloom, lb, lo, ll) && (status == 1) == (res.VmError == "") && (status == 0 || status == 1))
+//@   ensures[C13.receipt_stored] err == nil ==> (trReceipt[layer(ctx)][max(1, trCount[layer(ctx)]) - 1] == bytes(res.MarshalledReceipt) && trCount[layer(ctx)] == old(trCount[layer(ctx)]))
+//@   panics any
+//@ loop 1
+//@   invariant prevTxIdx <= txConfig.TxIndex && cumulativeGasUsed == (gasUsed + sumTo(trGas[layer(ctx)], prevTxIdx)) % pow2(64)
+
+// gas.go
+//@ func (k *Keeper) ResetGasMeterAndConsumeGas(ctx sdk.Context, gasUsed uint64)
+//@   requires ctx.GasMeter() != nil
+//@   modifies gmConsumed[payload(ctx.GasMeter())], gmToLimit[payload(ctx.GasMeter())]
+//@   ensures[C05.meter_reset] gmConsumed[payload(ctx.GasMeter())] == gasUsed
+//@   panics only_if gasUsed > gmLimit(payload(ctx.GasMeter()))
+
+// config.go — trusted summary of EVMConfig (params, chain config, coinbase lookup); NewTxConfig is verified.
+//@ ghost func coinbaseKnown(l int, h int) bool
+//@ func (k *Keeper) EVMConfig(ctx sdk.Context, overrideProposerAddress sdk.ConsAddress) (cfg *evmvm.EVMConfig, err error)
+//@   assumed
+//@   modifies nothing
+//@   ensures (err == nil) == coinbaseKnown(layer(ctx), hdr(ctx))
+//@   ensures err == nil ==> (cfg != nil && fresh(cfg) && cfg.ChainConfig != nil && cfg.BaseFee != nil && bigval[cfg.BaseFee] == fmBaseFee[layer(ctx)] && bigval[cfg.BaseFee] >= 0 && cfg.NoBaseFee == trFlagNoBaseFee[layer(ctx)])
+//@   panics never
+
+//@ func (k *Keeper) NewTxConfig(ctx sdk.Context, tx *ethtypes.Transaction) evmvm.TxConfig
+//@   requires k != nil
+//@   modifies nothing
+//@   ensures[C13.tx_index] result.TxIndex == max(1, trCount[layer(ctx)]) - 1
+//@   ensures[C13.tx_type] tx != nil ==> (result.TxType != nil && *result.TxType == txType(tx) && result.TxHash == tx.Hash())
+//@   ensures tx == nil ==> result.TxType == nil
+//@   panics never
+
+// ApplyTransaction: the gas the consensus result reports equals the receipt's gas (C05); every core error consumes
+// the whole gas limit (the two earlier error returns need an unknown block proposer / an invalid signature).
+//@ func (k *Keeper) ApplyTransaction(ctx sdk.Context, tx *ethtypes.Transaction) (res *evmtypes.MsgEthereumTxResponse, err error)
+//@   requires k != nil && tx != nil && ctx.GasMeter() != nil
+//@   requires txType(tx) <= 2 && gmLimit(payload(ctx.GasMeter())) == txGas(tx) && gmConsumed[payload(ctx.GasMeter())] <= gmLimit(payload(ctx.GasMeter()))
+//@   ensures[C05.consensus_gas_is_receipt_gas] err == nil ==> (res != nil && gmConsumed[payload(ctx.GasMeter())] == res.GasUsed && res.GasUsed <= txGas(tx) && trGas[layer(ctx)][max(1, trCount[layer(ctx)]) - 1] == res.GasUsed)
+//@   ensures[C05.consume_all_on_core_error] (err != nil && coinbaseKnown(layer(ctx), hdr(ctx)) && txSigOk(tx)) ==> gmConsumed[payload(ctx.GasMeter())] == gmLimit(payload(ctx.GasMeter()))
+//@   panics any
+
+//@ func (k Keeper) GetCumulativeLogCountTransient(ctx sdk.Context, exceptCurrent bool) uint64
+//@   assumed
+//@   modifies nothing
+//@   ensures result == (sumTo(trLogs[layer(ctx)], max(1, trCount[layer(ctx)])) - (exceptCurrent ? trLogs[layer(ctx)][max(1, trCount[layer(ctx)]) - 1] : 0)) % pow2(64)
+//@   panics never
